@@ -278,7 +278,13 @@ func VP_C06_Big() {
 	for i := 0; i < n; i++ {
 		name, id := vpBigEntry(i)
 		if (free == 0 && i == 0) || (free == 1 && i == n/2) || (free == 2 && i == n-1) {
-			// same sort position, free last byte of the name and free id
+			// same sort position, free last byte of the name and free id; optionally a name longer than 255 bytes
+			// (the name-length field has two bytes)
+			if zzvp.Choose(2) == 1 {
+				for k := 0; k < zzvp.Param("longname", 300); k++ {
+					name = append(name, 'y')
+				}
+			}
 			name[len(name)-1] = zzvp.Bytes("nb", 1, "a-z")[0]
 			id = zzvp.Bytes("bid", 20, "")
 		}
